@@ -150,8 +150,11 @@ def check_protocol(model, rep, key, compute_pred, recursion):
             recording = None
             open_node = None
             ever_opened = False
+            created = set()
             for pos, (i, e) in enumerate(seg):
                 k = e.kind
+                if k == 'RECORDLOG':
+                    created.add(e.data)
                 if k == 'with-exit' and open_node is not None and e.node is open_node:
                     opened, locked, open_node = None, False, None   # closing the handle releases the lock
                 if k == 'OPEN':
@@ -220,6 +223,9 @@ def check_protocol(model, rep, key, compute_pred, recursion):
                         fail('R18.5', 'compute-recorded', e.node, 'the wrapped computation runs without a RecordLog attached: the log output of the original call cannot be replayed')
                     else:
                         recording = next(ev.data for ev in _events_of(p, rec[-1]) if ev.kind == 'LOGADD')
+                        if recording not in created:
+                            fail('R18.5', 'fresh-recorder', e.node, f'the computation of this entry records into `{recording}`, which was not created for it (no `{recording} = log.RecordLog()` since the entry was opened): '
+                                 'the recorder still holds the output of the entries computed before, and a later hit replays their log lines again')
                 elif k == 'REPLAY':
                     replayed = True
                 elif k == 'REMOVE':
@@ -258,6 +264,7 @@ def check_protocol(model, rep, key, compute_pred, recursion):
         ('R18.3', 'compute-after-hit', 'no recomputation after a successful load'),
         ('R18.5', 'compute-disabled', 'computation inside `with disable()`'),
         ('R18.5', 'compute-recorded', 'computation records its log'),
+        ('R18.5', 'fresh-recorder', 'every computed entry records into a recorder created for that entry'),
         ('R18.5', 'dump-log', 'the stored entry contains the recorded log'),
         ('R18.5', 'dump-without-compute', 'nothing is stored when the computation did not complete'),
         ('R18.5', 'hit-replays', 'a hit replays the log before the value is handed out'),
@@ -522,6 +529,13 @@ def run(model, rep, tier):
     from rules.c17 import check_state_coverage
     from rules.c03 import _Rename
     check_state_coverage(model, _Rename(rep, {'R17.3': 'R18.4'}))   # the key of a memoised solve includes the hash of its method object
+    from rules.c17 import check_branches
+
+    class _Only(_Rename):       # only the branch-coverage obligations (R17.5) belong to the cache key; the identity questions of R17.7 are C17's
+        def ob(self, rule, *a, **k):
+            if rule == 'R17.5':
+                return _Rename.ob(self, rule, *a, **k)
+    check_branches(model, _Only(rep, {'R17.5': 'R18.4'}))           # ... and every argument enters through nutils_hash: each type branch feeds what distinguishes its values
     rep.rule('R18.11', 'every name loaded in cache.py resolves (symtable)')
     from rules import names as _names
     _names.check(model, rep, 'R18.11', ('cache',), 15)
